@@ -267,7 +267,7 @@ class DiagLock(sched.SchedLock):
     (before any blocked thread unwinds and releases what it holds)."""
 
     def __init__(self, s, reentrant, name, info):
-        super().__init__(s, reentrant, name)
+        super().__init__(s, reentrant, name, "lysosome")
         self.info = info                      # {"locks": [DiagLock], "wants": {tid: lock name}, "snap": None | dict}
         info["locks"].append(self)
 
